@@ -46,6 +46,7 @@ type Session struct {
 	// in incrementally and every other rule is removed, so that the state equals the
 	// base again when the text is submitted ("any state of the builder/pool").
 	SelfFirst bool    `json:"selffirst"`
+	Cleared   bool    `json:"cleared"` // the pool is emptied (ClearPoolRules) before the text goes to its update entry points
 	Class     string  `json:"class"`
 	Base      []RDecl `json:"base"`
 	Declared  []RDecl `json:"declared"`
@@ -198,6 +199,30 @@ func runMatches(base []RDecl, exec func() error) bool {
 	return true
 }
 
+// what a sort-model run must show after a text of class "valid" was accepted: the declared rules (version 2) and,
+// for an incremental entry point, the base rules it does not redefine
+func expectedAfter(s *Session, incr bool, base []RDecl) []RDecl {
+	var exp []RDecl
+	for _, d := range s.Declared {
+		d.Ver = 2
+		exp = append(exp, d)
+	}
+	if incr {
+		for _, b := range base {
+			over := false
+			for _, d := range s.Declared {
+				if d.Name == b.Name {
+					over = true
+				}
+			}
+			if !over {
+				exp = append(exp, b)
+			}
+		}
+	}
+	return exp
+}
+
 func postOfPool(p *engine.GenginePool, universe []string) ([]map[string]interface{}, int) {
 	post := []map[string]interface{}{}
 	ex := p.IsExist(universe)
@@ -226,7 +251,7 @@ func runCompile(s *Session) []Event {
 		universe[d.Name] = true
 	}
 	submit := func(ep string, ok bool, pv interface{}, nopool bool, post []map[string]interface{}, unchanged bool, extra Event) {
-		ev := Event{"ev": "cm_submit", "ep": ep, "ok": ok, "panic": pv != nil, "nopool": nopool, "post": post, "unchanged": unchanged}
+		ev := Event{"ev": "cm_submit", "ep": ep, "ok": ok, "panic": pv != nil, "nopool": nopool, "post": post, "unchanged": unchanged, "cleared": false}
 		for k, v := range extra {
 			ev[k] = v
 		}
@@ -283,6 +308,9 @@ func runCompile(s *Session) []Event {
 		if !ok {
 			g := engine.NewGengine()
 			unchanged = runMatches(s.Base, func() error { return g.Execute(rb, true) })
+		} else if s.Class == "valid" {
+			g := engine.NewGengine()
+			unchanged = runMatches(expectedAfter(s, ep == "builder_incr", s.Base), func() error { return g.Execute(rb, true) })
 		}
 		submit(ep, ok, pv, false, post, unchanged, nil)
 	}
@@ -346,6 +374,12 @@ func runCompile(s *Session) []Event {
 				os.Exit(2)
 			}
 		}
+		base := s.Base
+		if s.Cleared {
+			// "in any state of the pool": the pool was emptied before the text arrives
+			p.ClearPoolRules()
+			base = nil
+		}
 		var pv interface{}
 		if ep == "pool_full" {
 			err, pv = try(func() error { return p.UpdatePooledRules(s.Text) })
@@ -355,13 +389,17 @@ func runCompile(s *Session) []Event {
 		ok := err == nil && pv == nil
 		post, cnt := postOfPool(p, uni)
 		unchanged := true
-		if !ok {
-			unchanged = cnt == len(s.Base) && runMatches(s.Base, func() error {
-				e, _ := p.Execute(map[string]interface{}{}, true)
-				return e
-			})
+		run := func() error {
+			e, _ := p.Execute(map[string]interface{}{}, true)
+			return e
 		}
-		submit(ep, ok, pv, false, post, unchanged, Event{"count": cnt})
+		if !ok {
+			unchanged = cnt == len(base) && runMatches(base, run)
+		} else if s.Class == "valid" {
+			exp := expectedAfter(s, ep == "pool_incr", base)
+			unchanged = cnt == len(exp) && runMatches(exp, run)
+		}
+		submit(ep, ok, pv, false, post, unchanged, Event{"count": cnt, "cleared": s.Cleared})
 	}
 	return all
 }
